@@ -321,7 +321,72 @@ func (p c06) funcPointers(c *core.Ctx) {
 	runModelCase(c, g, holders, 2, true, nil, nil)
 }
 
+// processorHolder: the holder of the unnamed points is itself an eager component post-processor (unordered, or ordered
+// behind the built-in resolvers): its by-type points are resolved like any holder's.
+func (p c06) processorHolder(c *core.Ctx) {
+	g := world.NewG(c.Rng)
+	for x, n := 0, 1+c.Rng.Intn(6); x < n; x++ {
+		g.AddRandomNode(world.TypesEagerPlain, 0.3)
+	}
+	g.ShuffleOrders()
+	class := c.Rng.Intn(2) // (a priority-ordered processor is created before the - merely ordered - built-in resolvers are active)
+	pp := world.NewDepPP(class, "holder-pp", []int{50, 100, 1000}[c.Rng.Intn(3)])
+	r := world.Start(g.Sc, world.Options{Extra: []any{pp}})
+	c.Count("starts", 1)
+	c.Count("processor_holder_starts", 1)
+	detail := failDetail(g.Sc, r, map[string]any{"processor_class (0 unordered, 1 ordered)": class})
+	if r.Outcome() != "ok" {
+		c.Fail("", "a post-processor with optional by-type points: start did not succeed: "+core.Short(r.OutcomeDetail(), 300), detail)
+		return
+	}
+	dep, all := world.DepPoints(pp)
+	wantB := map[any]bool{}
+	nA := 0
+	for i, nd := range r.Nodes {
+		ti := world.Palette[g.Sc.Nodes[i].Type]
+		if ti.A {
+			nA++
+		}
+		if ti.B {
+			wantB[any(nd)] = true
+		}
+	}
+	if (dep != nil) != (nA > 0) {
+		c.Fail("", fmt.Sprintf("post-processor holder-pp: its point `Dep IA wire:\",required=false\"` holds %v although %d registered component(s) implement IA", dep, nA), detail)
+		return
+	}
+	if dep != nil {
+		okA := false
+		for i, nd := range r.Nodes {
+			if any(nd) == any(dep) && world.Palette[g.Sc.Nodes[i].Type].A {
+				okA = true
+			}
+		}
+		if !okA {
+			c.Fail("", fmt.Sprintf("post-processor holder-pp: its IA point holds %T, not a registered IA component", dep), detail)
+			return
+		}
+	}
+	seen := map[any]bool{}
+	for _, b := range all {
+		if !wantB[any(b)] || seen[any(b)] {
+			c.Fail("", fmt.Sprintf("post-processor holder-pp: its `All []IB` point holds %T %p, which is not a registered IB component or is held twice", b, b), detail)
+			return
+		}
+		seen[any(b)] = true
+	}
+	if len(seen) != len(wantB) {
+		c.Fail("", fmt.Sprintf("post-processor holder-pp: its `All []IB wire:\",required=false\"` point holds %d of the %d registered IB components", len(seen), len(wantB)), detail)
+		return
+	}
+	c.Nontrivial(fmt.Sprint("processorholder|", class, nA, len(wantB)))
+}
+
 func (p c06) Run(c *core.Ctx) {
+	if c.Index%20 == 17 {
+		p.processorHolder(c)
+		return
+	}
 	if c.Index%25 == 9 {
 		p.anonymous(c)
 		return
